@@ -167,46 +167,40 @@ def _returns_in_tail_position(block: list[ast.stmt]) -> bool:
 
 
 def _without_bare_return(body: list) -> list | None:
-    """block with `if c: ..; return` (a bare return, not inside a loop) rewritten as `if c: .. else: <rest>`;
-    None when there is nothing to rewrite or a return sits anywhere else"""
+    """block in which every bare `return` that sits in if-branches (at any depth, outside loops) is gone:
+    what follows an `if` is continued inside the branches that fall through.  None when there is nothing
+    to rewrite or a return sits in a loop / try / with."""
     def has_ret(stmts) -> bool:
-        return any(isinstance(n, ast.Return) for x in stmts for n in ast.walk(x)
-                   if not isinstance(x, (ast.FunctionDef, ast.AsyncFunctionDef, ast.ClassDef)))
+        return any(isinstance(n, ast.Return) for x in stmts
+                   if not isinstance(x, (ast.FunctionDef, ast.AsyncFunctionDef, ast.ClassDef)) for n in ast.walk(x))
+
+    class Unsupported(Exception):
+        pass
+
+    def elim(stmts: list, k: list) -> list:
+        out: list = []
+        for i, x in enumerate(stmts):
+            if isinstance(x, ast.Return):
+                if x.value is not None:
+                    raise Unsupported()
+                return out or [ast.copy_location(ast.Pass(), x)]
+            if isinstance(x, ast.If) and has_ret([x]):
+                k2 = elim(stmts[i + 1:], k)
+                then = elim(list(x.body), clone(k2))
+                orelse = elim(list(x.orelse), clone(k2))
+                out.append(ast.copy_location(ast.If(test=x.test, body=then or [ast.copy_location(ast.Pass(), x)],
+                                                    orelse=orelse), x))
+                return out
+            if has_ret([x]):
+                raise Unsupported()
+            out.append(x)
+        return out + k
     if not has_ret(body):
         return None
-    out = []
-    for i, x in enumerate(body):
-        if isinstance(x, ast.Return) and x.value is None:
-            return out or [ast.copy_location(ast.Pass(), x)]            # what follows is dead
-        if isinstance(x, ast.If) and has_ret([x]):
-            then = _without_bare_return(x.body) if has_ret(x.body) else list(x.body)
-            orelse = _without_bare_return(x.orelse) if has_ret(x.orelse) else list(x.orelse)
-            if then is None or orelse is None:
-                return None
-            rest = body[i + 1:]
-            rest2 = _without_bare_return(rest) if has_ret(rest) else rest
-            if rest2 is None:
-                return None
-            then_returns = bool(x.body) and isinstance(x.body[-1], ast.Return) and x.body[-1].value is None
-            else_returns = bool(x.orelse) and isinstance(x.orelse[-1], ast.Return) and x.orelse[-1].value is None
-            if has_ret(x.body[:-1] if then_returns else x.body) or has_ret(x.orelse[:-1] if else_returns else x.orelse):
-                return None         # a return deeper inside the branch: not handled
-            new_then = (list(x.body[:-1]) or [ast.copy_location(ast.Pass(), x)]) if then_returns else list(x.body) + clone(rest2)
-            new_else = list(x.orelse[:-1]) if else_returns else list(x.orelse) + (rest2 if then_returns or not else_returns else [])
-            if then_returns and else_returns:
-                new_else = list(x.orelse[:-1])
-            elif then_returns:
-                new_else = list(x.orelse) + rest2
-            elif else_returns:
-                new_then = list(x.body) + rest2
-                new_else = list(x.orelse[:-1]) or []
-            new = ast.copy_location(ast.If(test=x.test, body=new_then or [ast.copy_location(ast.Pass(), x)],
-                                           orelse=new_else), x)
-            return out + [new]
-        if has_ret([x]):
-            return None
-        out.append(x)
-    return None
+    try:
+        return elim(list(body), [])
+    except Unsupported:
+        return None
 
 
 def _without_continue(body: list) -> list | None:
